@@ -390,6 +390,8 @@ func execConcurrent(run *simkit.Run) {
 	}
 	var slowest time.Duration
 	var smu sync.Mutex
+	seq := 0
+	tick := func() int { seq++; return seq } // global event sequence number (call under smu)
 	for wi := 0; wi < c.Int("workers"); wi++ {
 		wg.Add(1)
 		go func(wi int, rng *simkit.Rand) {
@@ -403,6 +405,7 @@ func execConcurrent(run *simkit.Run) {
 					smu.Lock()
 					w.nup++
 					u := &fakeUpstream{endpoint: endpointNames[rng.Intn(neps)], id: w.nup, node: nd.idx}
+					u.addCall = tick()
 					smu.Unlock()
 					nd.mgr.AddConn(u)
 					mine = append(mine, u)
@@ -411,11 +414,31 @@ func execConcurrent(run *simkit.Run) {
 					u := mine[j]
 					mine = append(mine[:j:j], mine[j+1:]...)
 					nd.mgr.RemoveConn(u)
+					smu.Lock()
+					u.removeRet = tick()
+					smu.Unlock()
 				case r < 9:
 					ep := endpointNames[rng.Intn(neps)]
-					if u, ok := nd.mgr.Select(ep, rng.Bool()); ok {
-						if fu, isLocal := u.(*fakeUpstream); isLocal && fu.endpoint != ep {
-							run.Fail("C15.valid", "upstream-of-other-endpoint", "n%d concurrent Select(%q) returned an upstream of %q", nd.idx, ep, fu.endpoint)
+					smu.Lock()
+					call := tick()
+					smu.Unlock()
+					u, ok := nd.mgr.Select(ep, rng.Bool())
+					if ok && u == nil {
+						run.Fail("C15.valid", "nil-upstream", "n%d concurrent Select(%q) reported success without an upstream", nd.idx, ep)
+					} else if ok {
+						if fu, isLocal := u.(*fakeUpstream); isLocal {
+							smu.Lock()
+							rr := fu.removeRet
+							smu.Unlock()
+							switch {
+							case fu.endpoint != ep:
+								run.Fail("C15.valid", "upstream-of-other-endpoint", "n%d concurrent Select(%q) returned an upstream of %q", nd.idx, ep, fu.endpoint)
+							case fu.node != nd.idx:
+								run.Fail("C15.valid", "upstream-of-other-node", "n%d concurrent Select(%q) returned an upstream registered on n%d", nd.idx, ep, fu.node)
+							case rr != 0 && rr < call:
+								run.Fail("C15.valid", "removed-upstream-returned", "n%d concurrent Select(%q) returned upstream #%d whose removal had completed before the selection began", nd.idx, ep, fu.id)
+							}
+							run.Probe("c15.concurrent_select_checked")
 						}
 					}
 				default:
